@@ -11,7 +11,7 @@
    For key classes whose public exponent exceeds crypto/rsa's documented limit the runs
    are Z-only.  A second action class applies the public-key operations to malformed
    public keys.  TLC enumerates the runs as behaviours (one run = one behaviour). *)
-EXTENDS RSAIdeal, Json
+EXTENDS RSAIdeal, Json, SequencesExt
 
 CONSTANTS Sizes,      \* modulus sizes in bits
           PrimeCounts,
@@ -24,9 +24,9 @@ CONSTANTS Sizes,      \* modulus sizes in bits
 VARIABLES kc, obj, steps, phase
 vars == <<kc, obj, steps, phase>>
 
-SeqOf(S) == CHOOSE s \in [1..Cardinality(S) -> S] : \A i, j \in 1..Cardinality(S) : i # j => s[i] # s[j]
+EnumOf(S) == SetToSeq(S)     \* a fixed enumeration of S
 IndexIn(s, x) == CHOOSE i \in 1..Len(s) : s[i] = x
-SizeSeq == SeqOf(Sizes)  PrimeSeq == SeqOf(PrimeCounts)  PreSeq == SeqOf(Pres)  ExpSeq == SeqOf(ExpSel)
+SizeSeq == EnumOf(Sizes)  PrimeSeq == EnumOf(PrimeCounts)  PreSeq == EnumOf(Pres)  ExpSeq == EnumOf(ExpSel)
 
 Classes == [bits : Sizes, primes : PrimeCounts, pre : Pres, exp : ExpSel]
 Selected(c) ==
@@ -41,7 +41,7 @@ NoObj == [scheme |-> "none", hash |-> "", hlen |-> 0, label |-> "", mlen |-> 0, 
 Step(op, impl) == [op |-> op, impl |-> impl, hash |-> "", dlen |-> 0, mlen |-> 0, label |-> "", smode |-> "", sn |-> 0,
                    mut |-> "", key |-> "same", digest |-> "same", keylen |-> 0, bad |-> "", forge |-> "",
                    exp |-> <<>>, agree |-> FALSE]
-SetSeq(S) == SeqOf(S)
+SetSeq(S) == EnumOf(S)
 
 Impls == IF SApplicable(kc.exp) THEN {"Z", "S"} ELSE {"Z"}
 OtherHash(h) == CHOOSE g \in GenHashes : g # h
@@ -89,6 +89,7 @@ ProduceSignPSS ==
 ProduceForgeEnc ==
   \E f \in ForgedEnc :
     /\ SApplicable(kc.exp)
+    /\ f = "b0" => kc.bits % 8 # 1       \* 01 02 .. would not be below a modulus 01 xx ..
     /\ obj' = [NoObj EXCEPT !.scheme = "forgedenc", !.mlen = 16]
     /\ steps' = Append(steps, [Step("ForgeEnc", "-") EXCEPT !.forge = f, !.mlen = 16, !.exp = <<"ok">>])
     /\ phase' = "consume"
@@ -102,8 +103,30 @@ ProduceForgeSig ==
     /\ steps' = Append(steps, [Step("ForgeSig", "-") EXCEPT !.forge = f, !.hash = h, !.dlen = HLen(h), !.exp = <<"ok">>])
     /\ phase' = "consume"
 
+ProduceForgePSS ==
+  \E f \in ForgedPSS, h \in GenHashes, sm \in {"eqhash", "n"} :
+    LET n == IF sm = "n" THEN 7 ELSE 0
+        sl == SaltLen(kc.bits, HLen(h), sm, n) IN
+    /\ SApplicable(kc.exp)
+    /\ SignPSSOK(kc.bits, HLen(h), sm, n)
+    /\ PSSPadLen(kc.bits, HLen(h), sl) >= 2
+    /\ obj' = [NoObj EXCEPT !.scheme = "forgedpss", !.hash = h, !.hlen = HLen(h), !.slen = sl]
+    /\ steps' = Append(steps, [Step("ForgePSS", "-") EXCEPT !.forge = f, !.hash = h, !.dlen = HLen(h), !.smode = sm, !.sn = n,
+                                                           !.exp = <<"ok">>])
+    /\ phase' = "consume"
+
+ProduceForgeOAEP ==
+  \E f \in ForgedOAEP \cup {"genuine"}, h \in GenHashes, lab \in {"", "L1"} :
+    /\ EncOAEPOK(kc.bits, HLen(h), 5)
+    /\ OAEPPadLen(kc.bits, HLen(h), 5) >= 1
+    /\ obj' = [NoObj EXCEPT !.scheme = IF f = "genuine" THEN "oaep" ELSE "forgedoaep", !.mlen = 5, !.hash = h,
+                            !.hlen = HLen(h), !.label = lab]
+    /\ steps' = Append(steps, [Step("ForgeOAEP", "-") EXCEPT !.forge = f, !.hash = h, !.label = lab, !.mlen = 5, !.exp = <<"ok">>])
+    /\ phase' = "consume"
+
 Produce == /\ phase = "produce" /\ UNCHANGED kc
-           /\ (ProduceEncPKCS1 \/ ProduceEncOAEP \/ ProduceSignPKCS1 \/ ProduceSignPSS \/ ProduceForgeEnc \/ ProduceForgeSig)
+           /\ (ProduceEncPKCS1 \/ ProduceEncOAEP \/ ProduceSignPKCS1 \/ ProduceSignPSS \/ ProduceForgeEnc \/ ProduceForgeSig
+                 \/ ProduceForgePSS \/ ProduceForgeOAEP)
 
 (* ---- mutation of the stored ciphertext / signature ---- *)
 Mutate == /\ phase = "mutate" /\ UNCHANGED kc
@@ -134,10 +157,10 @@ ConsumeDecSessionKey ==
 
 ConsumeDecOAEP ==
   \E hs \in {"same", "other"}, ls \in {"same", "other"} :
-    LET h == IF obj.scheme = "oaep" THEN (IF hs = "same" THEN obj.hash ELSE OtherHash(obj.hash)) ELSE SetSeq(GenHashes)[1]
+    LET h == IF obj.scheme \in {"oaep", "forgedoaep"} THEN (IF hs = "same" THEN obj.hash ELSE OtherHash(obj.hash)) ELSE SetSeq(GenHashes)[1]
         lab == IF ls = "same" THEN obj.label ELSE "L2" IN
-    /\ obj.scheme \in {"oaep", "pkcs1enc"}
-    /\ obj.scheme = "pkcs1enc" => (hs = "same" /\ ls = "same")     \* one cross-scheme variant
+    /\ obj.scheme \in {"oaep", "pkcs1enc", "forgedoaep"}
+    /\ obj.scheme \in {"pkcs1enc", "forgedoaep"} => (hs = "same" /\ ls = "same")     \* one variant
     /\ steps' = steps \o Twin([Step("DecOAEP", "Z") EXCEPT !.hash = h, !.label = lab],
                               DecOAEP(kc.bits, obj.scheme, obj.mut, TRUE, h = obj.hash, lab = obj.label, HLen(h)))
 
@@ -161,8 +184,9 @@ ConsumeVerPSS ==
         h == IF cross THEN SetSeq(GenHashes)[1] ELSE IF dev = "hash" THEN OtherHash(obj.hash) ELSE obj.hash
         vmode == CASE dev = "eqhash" -> "eqhash" [] dev \in {"exact", "wrong"} -> "n" [] OTHER -> "auto"
         vn == CASE dev = "exact" -> obj.slen [] dev = "wrong" -> obj.slen + 1 [] OTHER -> 0 IN
-    /\ obj.scheme \in {"pss", "pkcs1sig"}
+    /\ obj.scheme \in {"pss", "pkcs1sig", "forgedpss"}
     /\ cross => dev = "none"
+    /\ obj.scheme = "forgedpss" => dev \in {"none", "exact", "eqhash"}
     /\ dev = "exact" => obj.slen > 0          \* SaltLength 0 is the "auto" constant
     /\ steps' = steps \o Twin([Step("VerPSS", "Z") EXCEPT !.hash = h, !.dlen = HLen(h), !.smode = vmode, !.sn = vn,
                                                         !.digest = IF dev = "digest" THEN "other" ELSE "same",
